@@ -815,6 +815,18 @@ class Gen:
                 p = os.path.join(VERIF, s[len('//@ include '):].strip())
                 for k, l2 in enumerate(open(p).read().split('\n')):
                     self.out.append((l2, ('inc', os.path.relpath(p, VERIF), k + 1)))
+            elif s.startswith('//@ opaque-audit '):
+                # //@ opaque-audit <fragment> <method> [props..]: the contract that the OPAQUE stub of <method> carries in
+                # <fragment> (units that see the registry only through its abstract views) is re-stated here over the
+                # real fields and proved from the method's own contract: fn <method>__opaque_audit(..) <stub contract,
+                # views replaced> { c.<method>(..) }
+                w = s.split()
+                frag, meth, props = os.path.join(VERIF, w[2]), w[3], w[4:]
+                txt = opaque_audit_text(open(frag).read(), meth)
+                for k, l2 in enumerate(txt.split('\n')):
+                    self.out.append((l2, ('tmpl', tname, i + 1)))
+                self.ledger.append(dict(fn=meth + '__opaque_audit', label='%s.opaque_stub_contract_follows' % meth, kind='lemma', props=props,
+                                        text='fn %s__opaque_audit' % meth, tmpl_line='%s:%d' % (tname, i + 1)))
             elif s.startswith('//@ default-stub '):
                 for kv in s[len('//@ default-stub '):].split():
                     a, b = kv.split('=')
@@ -838,6 +850,25 @@ class Gen:
         with open(os.path.join(outdir, self.unit + '.map.json'), 'w') as f:
             json.dump(dict(lines=[o for _, o in self.out], report=self.report, ledger=self.ledger), f)
         return rs
+
+
+def opaque_audit_text(frag, meth):
+    """from `pub fn METH(&self|&mut self, params) -> (r: T) requires.. ensures.. { unimplemented!() }` in the opaque
+    fragment to an audit function over the transparent type: self -> c, names() -> commands@, alias_map() -> aliases@,
+    lookup(E) -> lookup(skey(E))"""
+    m = re.search(r'pub fn %s\((&mut self|&self)(?:,\s*)?([^)]*)\)\s*->\s*\((\w+):\s*([^\n]*?)\)\s*\n?(.*?)\{\s*unimplemented!\(\)\s*\}' % re.escape(meth), frag, re.S)
+    if not m:
+        raise LostAnchor('opaque stub not found: ' + meth)
+    recv, params, rname, rtype, spec = m.group(1), m.group(2).strip(), m.group(3), m.group(4).strip(), m.group(5)
+    spec = re.sub(r'\bself\b', 'c', spec)
+    spec = spec.replace('.names()', '.commands@').replace('.alias_map()', '.aliases@')
+    spec = re.sub(r'\.lookup\(((?:[^()]|\([^()]*\))*)\)', r'.lookup(crate::trusted::skey(\1))', spec)
+    cparam = 'c: &mut Commands' if recv == '&mut self' else 'c: &Commands'
+    args = ', '.join(x.split(':')[0].strip() for x in params.split(',') if x.strip())
+    return ('/// audit of the opaque stub of Commands::%s (units/frag_command_opaque.vrs): its contract, with the abstract views\n'
+            '/// replaced by the real tables, follows from the contract proved above\n'
+            'pub fn %s__opaque_audit(%s%s) -> (%s: %s)\n%s{ c.%s(%s) }\n') % (
+        meth, meth, cparam, (', ' + params) if params else '', rname, rtype, spec, meth, args)
 
 
 def main():
